@@ -513,6 +513,53 @@ theorem compare_ignores_trailing (h x pw : Bytes) (p : Hashed) (hp : newFromHash
     rw [hashString_ignores_tail p x hlen]
 
 
+/-- Compare only depends on the candidate through `bcrypt candidate cost salt` -/
+theorem compare_congr (H pw1 pw2 : Bytes) (h : ∀ c s, bcrypt pw1 c s = bcrypt pw2 c s) :
+    compare H pw1 = compare H pw2 := by
+  unfold compare
+  cases newFromHash H with
+  | panic => rfl
+  | err e => rfl
+  | ok p => simp only [bind, h]
+
+/-- the "if" direction of the password iff, end to end: a candidate whose NUL-terminated form has the
+    same 72-byte cyclic expansion as the password verifies against the generated hash -/
+theorem compare_generate_equiv (pw cand rnd : Bytes) (cost : Int) (H : Bytes) (hr : rnd.length = 16)
+    (hg : generate pw cost rnd = .ok H) (hc : cyc72 (pw ++ [0]) = cyc72 (cand ++ [0])) :
+    compare H cand = .ok () := by
+  rw [compare_congr H cand pw (fun c s => key_equiv_if cand pw s c hc.symm)]
+  exact compare_generate pw rnd cost H hr hg
+
+/-- GenerateFromPassword succeeds for every password of at most 72 bytes, every cost ≤ 31 (costs below 4
+    become 10) and every 16 salt bytes — so the hypotheses of `compare_generate` are always satisfiable -/
+theorem generate_ok (pw rnd : Bytes) (cost : Int) (hp : pw.length ≤ 72) (hc : cost ≤ 31) (hr : rnd.length = 16) :
+    ∃ H, generate pw cost rnd = .ok H := by
+  unfold generate
+  have h72 : ¬ pw.length > 72 := by omega
+  simp only [h72, if_false, bind, checkCost]
+  generalize hc' : (if cost < 4 then (10 : Int) else cost) = c
+  have hcr : ¬ (c < 4 ∨ c > 31) := by
+    rw [← hc']; split <;> omega
+  simp only [hcr, if_false]
+  have hdec := b64_roundtrip_16 rnd hr
+  have hne : rnd ≠ [] := by intro h; rw [h] at hr; simp at hr
+  have hb : ∃ h, bcrypt pw c.toNat (b64Encode rnd) = .ok h := by
+    unfold bcrypt setup
+    rw [hdec]
+    unfold setupCore Blowfish.newSaltedCipher
+    have h1 : (rnd.length == 0) = false := by rw [hr]; rfl
+    have h2 : ¬ (pw ++ [0]).length < 1 := by simp
+    have h3 : rnd.isEmpty = false := by cases rnd with | nil => exact absurd rfl hne | cons a b => rfl
+    simp only [h1, h2, if_false, Bool.false_eq_true, h3, bind, pure]
+    exact ⟨_, rfl⟩
+  obtain ⟨h, hh⟩ := hb
+  rw [hh]
+  exact ⟨_, rfl⟩
+
+
+example : ∃ H, generate [112, 119] 4 (zeros 16) = .ok H := generate_ok _ _ _ (by decide) (by decide) rfl
+example : ∃ H, generate (List.replicate 72 7) 31 (zeros 16) = .ok H := generate_ok _ _ _ (by decide) (by decide) rfl
+
 /-- the full statement of the property (the "only if" direction is collision resistance of bcrypt and
     is not provable): Compare succeeds for a candidate iff the key schedule sees the same 72 bytes -/
 def C17_full : Prop :=
